@@ -3,6 +3,9 @@
 # (reverts with `git apply -R`, so uncommitted work in /repo is left alone)
 P="$1"; ID="$2"; TIER="${3:-quick}"
 cd /verif
+# one seeded change at a time in /repo: overlapping seeds contaminate each other's verdicts
+exec 9>/verif/.lock-seed
+flock 9
 git -C /repo apply "$P" || { echo "patch does not apply"; exit 2; }
 cp evidence/$ID.json /tmp/evidence-$ID.bak 2>/dev/null
 ./check "$ID" "$TIER"; RC=$?
